@@ -58,7 +58,10 @@ Record st := mkSt {
   cur : Z;               (* current epoch of the dogfood epoch identifier *)
   unb : Z;               (* params.EpochsUntilUnbonded *)
   (* x/delegation *)
-  holds : Z -> Z         (* undelegation hold count per record *)
+  holds : Z -> Z;        (* undelegation hold count per record *)
+  (* x/operator opted info *)
+  jailed : Z -> bool;    (* OptedInfo.Jailed *)
+  info : Z -> bool       (* an OptedInfo record exists (the operator has opted in at least once) *)
 }.
 
 Inductive op :=
@@ -70,7 +73,11 @@ Inductive op :=
 | SetUnb (n : Z)          (* dogfood UpdateParams: EpochsUntilUnbonded := n (n > 0) *)
 | BeginBlock (tick : bool)    (* tick = the epochs module closes the current dogfood epoch in this block *)
 | EndBlock (sel : list Z)     (* sel = operators with vote power >= 1 inside the top MaxValidators (external) *)
-| SetKeyK (o k : Z).          (* Keeper.SetOperatorConsKeyForChainID called directly (no IsActive check) *)
+| SetKeyK (o k : Z)           (* Keeper.SetOperatorConsKeyForChainID called directly (no IsActive check) *)
+| Jail (c : Z)                (* dogfood Keeper.Jail(consAddr): the call of the slashing / evidence modules *)
+| Unjail (c : Z)              (* dogfood Keeper.Unjail(consAddr) *)
+| SlashBy (c : Z)             (* dogfood Keeper.SlashWithInfractionReason(consAddr, ...) *)
+| SetClock (c : Z).           (* dogfood UpdateParams: EpochIdentifier := another identifier whose current epoch is c *)
 
 Inductive res := ROk | RErr | RPanic.
 
@@ -78,16 +85,21 @@ Definition res_eqb (a b : res) : bool :=
   match a, b with ROk, ROk | RErr, RErr | RPanic, RPanic => true | _, _ => false end.
 
 (* ---- setters ---- *)
-Definition with_opted s v := mkSt v (k_op s) (k_ch s) (k_rev s) (k_prev s) (k_rm s) (vs s) (q_opt s) (q_prune s) (q_und s) (fin s) (mat s) (p_opt s) (p_prune s) (p_und s) (ep_end s) (cur s) (unb s) (holds s).
-Definition with_keys s a b := mkSt (opted s) a b (k_rev s) (k_prev s) (k_rm s) (vs s) (q_opt s) (q_prune s) (q_und s) (fin s) (mat s) (p_opt s) (p_prune s) (p_und s) (ep_end s) (cur s) (unb s) (holds s).
-Definition with_rev s v := mkSt (opted s) (k_op s) (k_ch s) v (k_prev s) (k_rm s) (vs s) (q_opt s) (q_prune s) (q_und s) (fin s) (mat s) (p_opt s) (p_prune s) (p_und s) (ep_end s) (cur s) (unb s) (holds s).
-Definition with_prev s v := mkSt (opted s) (k_op s) (k_ch s) (k_rev s) v (k_rm s) (vs s) (q_opt s) (q_prune s) (q_und s) (fin s) (mat s) (p_opt s) (p_prune s) (p_und s) (ep_end s) (cur s) (unb s) (holds s).
-Definition with_rm s v := mkSt (opted s) (k_op s) (k_ch s) (k_rev s) (k_prev s) v (vs s) (q_opt s) (q_prune s) (q_und s) (fin s) (mat s) (p_opt s) (p_prune s) (p_und s) (ep_end s) (cur s) (unb s) (holds s).
-Definition with_vs s v := mkSt (opted s) (k_op s) (k_ch s) (k_rev s) (k_prev s) (k_rm s) v (q_opt s) (q_prune s) (q_und s) (fin s) (mat s) (p_opt s) (p_prune s) (p_und s) (ep_end s) (cur s) (unb s) (holds s).
-Definition with_qopt s q f := mkSt (opted s) (k_op s) (k_ch s) (k_rev s) (k_prev s) (k_rm s) (vs s) q (q_prune s) (q_und s) f (mat s) (p_opt s) (p_prune s) (p_und s) (ep_end s) (cur s) (unb s) (holds s).
-Definition with_qprune s q := mkSt (opted s) (k_op s) (k_ch s) (k_rev s) (k_prev s) (k_rm s) (vs s) (q_opt s) q (q_und s) (fin s) (mat s) (p_opt s) (p_prune s) (p_und s) (ep_end s) (cur s) (unb s) (holds s).
-Definition with_und s q m h := mkSt (opted s) (k_op s) (k_ch s) (k_rev s) (k_prev s) (k_rm s) (vs s) (q_opt s) (q_prune s) q (fin s) m (p_opt s) (p_prune s) (p_und s) (ep_end s) (cur s) (unb s) h.
-Definition with_unb s n := mkSt (opted s) (k_op s) (k_ch s) (k_rev s) (k_prev s) (k_rm s) (vs s) (q_opt s) (q_prune s) (q_und s) (fin s) (mat s) (p_opt s) (p_prune s) (p_und s) (ep_end s) (cur s) n (holds s).
+Definition with_opted s v := mkSt v (k_op s) (k_ch s) (k_rev s) (k_prev s) (k_rm s) (vs s) (q_opt s) (q_prune s) (q_und s) (fin s) (mat s) (p_opt s) (p_prune s) (p_und s) (ep_end s) (cur s) (unb s) (holds s) (jailed s) (info s).
+Definition with_keys s a b := mkSt (opted s) a b (k_rev s) (k_prev s) (k_rm s) (vs s) (q_opt s) (q_prune s) (q_und s) (fin s) (mat s) (p_opt s) (p_prune s) (p_und s) (ep_end s) (cur s) (unb s) (holds s) (jailed s) (info s).
+Definition with_rev s v := mkSt (opted s) (k_op s) (k_ch s) v (k_prev s) (k_rm s) (vs s) (q_opt s) (q_prune s) (q_und s) (fin s) (mat s) (p_opt s) (p_prune s) (p_und s) (ep_end s) (cur s) (unb s) (holds s) (jailed s) (info s).
+Definition with_prev s v := mkSt (opted s) (k_op s) (k_ch s) (k_rev s) v (k_rm s) (vs s) (q_opt s) (q_prune s) (q_und s) (fin s) (mat s) (p_opt s) (p_prune s) (p_und s) (ep_end s) (cur s) (unb s) (holds s) (jailed s) (info s).
+Definition with_rm s v := mkSt (opted s) (k_op s) (k_ch s) (k_rev s) (k_prev s) v (vs s) (q_opt s) (q_prune s) (q_und s) (fin s) (mat s) (p_opt s) (p_prune s) (p_und s) (ep_end s) (cur s) (unb s) (holds s) (jailed s) (info s).
+Definition with_vs s v := mkSt (opted s) (k_op s) (k_ch s) (k_rev s) (k_prev s) (k_rm s) v (q_opt s) (q_prune s) (q_und s) (fin s) (mat s) (p_opt s) (p_prune s) (p_und s) (ep_end s) (cur s) (unb s) (holds s) (jailed s) (info s).
+Definition with_qopt s q f := mkSt (opted s) (k_op s) (k_ch s) (k_rev s) (k_prev s) (k_rm s) (vs s) q (q_prune s) (q_und s) f (mat s) (p_opt s) (p_prune s) (p_und s) (ep_end s) (cur s) (unb s) (holds s) (jailed s) (info s).
+Definition with_qprune s q := mkSt (opted s) (k_op s) (k_ch s) (k_rev s) (k_prev s) (k_rm s) (vs s) (q_opt s) q (q_und s) (fin s) (mat s) (p_opt s) (p_prune s) (p_und s) (ep_end s) (cur s) (unb s) (holds s) (jailed s) (info s).
+Definition with_und s q m h := mkSt (opted s) (k_op s) (k_ch s) (k_rev s) (k_prev s) (k_rm s) (vs s) (q_opt s) (q_prune s) q (fin s) m (p_opt s) (p_prune s) (p_und s) (ep_end s) (cur s) (unb s) h (jailed s) (info s).
+Definition with_jail s j i := mkSt (opted s) (k_op s) (k_ch s) (k_rev s) (k_prev s) (k_rm s) (vs s) (q_opt s) (q_prune s) (q_und s) (fin s) (mat s) (p_opt s) (p_prune s) (p_und s) (ep_end s) (cur s) (unb s) (holds s) j i.
+Definition with_cur s c := mkSt (opted s) (k_op s) (k_ch s) (k_rev s) (k_prev s) (k_rm s) (vs s) (q_opt s) (q_prune s) (q_und s) (fin s) (mat s) (p_opt s) (p_prune s) (p_und s) (ep_end s) c (unb s) (holds s) (jailed s) (info s).
+Definition with_unb s n := mkSt (opted s) (k_op s) (k_ch s) (k_rev s) (k_prev s) (k_rm s) (vs s) (q_opt s) (q_prune s) (q_und s) (fin s) (mat s) (p_opt s) (p_prune s) (p_und s) (ep_end s) (cur s) n (holds s) (jailed s) (info s).
+
+(* IsActive: opted in and not jailed *)
+Definition active (s : st) (o : Z) : bool := opted s o && negb (jailed s o).
 
 (* GetUnbondingCompletionEpoch *)
 Definition completion_epoch (s : st) : Z := cur s + unb s.
@@ -99,10 +111,9 @@ Definition validating (s : st) (o : Z) : bool :=
   | Some k => vs s k || match k_prev s o with Some pk => vs s pk | None => false end
   end.
 
-(* dogfood AfterOperatorKeyReplaced *)
+(* dogfood AfterOperatorKeyReplaced (repaired: the reverse lookup of EVERY replaced key is kept for the unbonding period) *)
 Definition hook_replaced (s : st) (old : Z) : st :=
-  if vs s old then with_qprune s (qappend (q_prune s) (completion_epoch s) old)
-  else with_rev s (mdel (k_rev s) old).
+  with_qprune s (qappend (q_prune s) (completion_epoch s) old).
 
 (* setOperatorConsKeyForChainID (genesis = false; the operator is not frozen) *)
 Definition set_key (s : st) (o k : Z) : st * res :=
@@ -118,11 +129,12 @@ Definition set_key (s : st) (o k : Z) : st * res :=
         else (hook_replaced (write (with_prev s (mset (k_prev s) o pk))) pk, ROk)
     end.
 
-(* Keeper.OptIn (operator registered, AVS registered, self USD value sufficient, not frozen) *)
+(* Keeper.OptIn (operator registered, AVS registered, self USD value sufficient, not frozen); a fresh OptedInfo
+   record is written, so a jailed flag left from an earlier opt-in is gone *)
 Definition opt_in (s : st) (o : Z) : st * res :=
   if opted s o then (s, RErr)                       (* ErrAlreadyOptedIn *)
   else if k_rm s o then (s, RErr)                   (* repaired: ErrAlreadyRemovingKey *)
-  else (with_opted s (bset (opted s) o true), ROk).
+  else (with_jail (with_opted s (bset (opted s) o true)) (bset (jailed s) o false) (bset (info s) o true), ROk).
 
 (* CompleteOperatorKeyRemovalForChainID; None = nil dereference (marker set but no key) *)
 Definition complete_removal (s : st) (o : Z) : option st :=
@@ -135,20 +147,18 @@ Definition complete_removal (s : st) (o : Z) : option st :=
        end.
 
 (* Keeper.OptOut incl. the deferred InitiateOperatorKeyRemovalForChainID and the dogfood hook
-   AfterOperatorKeyRemovalInitiated (repaired).  The message is atomic: a panic leaves the state as it was. *)
+   AfterOperatorKeyRemovalInitiated (repaired: no key = nothing to remove; otherwise the removal always completes
+   after the unbonding period) *)
 Definition opt_out (s : st) (o : Z) : st * res :=
-  if negb (opted s o) then (s, RErr)                (* ErrNotOptedIn *)
-  else match k_op s o with
-       | None => (s, RPanic)                        (* key.ToConsAddr() on a nil key *)
-       | Some _ =>
-           let s1 := with_rm (with_opted s (bset (opted s) o false)) (bset (k_rm s) o true) in
-           if validating s1 o then
-             (with_qopt s1 (qappend (q_opt s1) (completion_epoch s1) o) (mset (fin s1) o (completion_epoch s1)), ROk)
-           else match complete_removal s1 o with
-                | Some s2 => (s2, ROk)
-                | None => (s, RPanic)
-                end
-       end.
+  if negb (active s o) then (s, RErr)               (* ErrNotOptedIn: not opted in, or jailed *)
+  else
+    let s0 := with_opted s (bset (opted s) o false) in
+    match k_op s o with
+    | None => (s0, ROk)
+    | Some _ =>
+        let s1 := with_rm s0 (bset (k_rm s) o true) in
+        (with_qopt s1 (qappend (q_opt s1) (completion_epoch s1) o) (mset (fin s1) o (completion_epoch s1)), ROk)
+    end.
 
 (* dogfood AfterUndelegationStarted for a fresh record r *)
 Definition register_und (s : st) (r e : Z) : st :=
@@ -171,7 +181,7 @@ Definition epoch_end (s : st) : st :=
        (qclear (q_opt s) e) (qclear (q_prune s) e) (qclear (q_und s) e)
        (fold_left mdel po (fin s)) (mat s)
        po (qget (q_prune s) e) (qget (q_und s) e)
-       true (e + 1) (unb s) (holds s).
+       true (e + 1) (unb s) (holds s) (jailed s) (info s).
 
 (* DecrementUndelegationHoldCount (error when 0) + ClearUndelegationMaturityEpoch, for every pending record *)
 Definition release_one (hm : (Z -> Z) * zmap) (r : Z) : (Z -> Z) * zmap :=
@@ -187,7 +197,7 @@ Fixpoint complete_all (s : st) (l : list Z) : option st :=
   end.
 
 Definition new_valset (s : st) (sel : list Z) : Z -> bool :=
-  fun c => existsb (fun o => opted s o && oz_eqb (k_ch s o) (Some c)) sel.
+  fun c => existsb (fun o => active s o && oz_eqb (k_ch s o) (Some c)) sel.
 
 (* dogfood EndBlock *)
 Definition end_block (s : st) (sel : list Z) : st * res :=
@@ -195,15 +205,35 @@ Definition end_block (s : st) (sel : list Z) : st * res :=
   else
     let '(h1, m1) := fold_left release_one (p_und s) (holds s, mat s) in
     let s1 := mkSt (opted s) (k_op s) (k_ch s) (k_rev s) mempty (k_rm s) (vs s) (q_opt s) (q_prune s) (q_und s)
-                   (fin s) m1 (p_opt s) (p_prune s) [] (ep_end s) (cur s) (unb s) h1 in
+                   (fin s) m1 (p_opt s) (p_prune s) [] (ep_end s) (cur s) (unb s) h1 (jailed s) (info s) in
     match complete_all s1 (p_opt s1) with
     | None => (s, RPanic)
     | Some s2 =>
         let rev3 := fold_left mdel (p_prune s2) (k_rev s2) in
         let s3 := mkSt (opted s2) (k_op s2) (k_ch s2) rev3 (k_prev s2) (k_rm s2) (vs s2) (q_opt s2) (q_prune s2)
-                       (q_und s2) (fin s2) (mat s2) [] [] [] false (cur s2) (unb s2) (holds s2) in
+                       (q_und s2) (fin s2) (mat s2) [] [] [] false (cur s2) (unb s2) (holds s2) (jailed s2) (info s2) in
         (with_vs s3 (new_valset s3 sel), ROk)
     end.
+
+(* SetJailedState: resolve the address, then HandleOptedInfo (an error, logged, when no record exists) *)
+Definition set_jailed (s : st) (c : Z) (v : bool) : st :=
+  match k_rev s c with
+  | Some o => if info s o then with_jail s (bset (jailed s) o v) (info s) else s
+  | None => s
+  end.
+
+(* the operator that dogfood SlashWithInfractionReason(consAddr) hands to the operator module *)
+Definition slash_target (s : st) (c : Z) : option Z := k_rev s c.
+
+(* IsOperatorJailedForChainID / IsValidatorJailed *)
+Definition jail_probe (s : st) (c : Z) : bool :=
+  match k_rev s c with Some o => info s o && jailed s o | None => false end.
+
+Definition nothing_scheduled (s : st) : bool :=
+  match q_opt s, q_prune s, q_und s, p_opt s, p_prune s, p_und s with
+  | [], [], [], [], [], [] => true
+  | _, _, _, _, _, _ => false
+  end.
 
 Definition step (s : st) (a : op) : st * res :=
   match a with
@@ -216,13 +246,17 @@ Definition step (s : st) (a : op) : st * res :=
       | (_, r) => (s, r)
       end
   | OptIn o => opt_in s o
-  | SetKey o k => if negb (opted s o) then (s, RErr) else set_key s o k
+  | SetKey o k => if negb (active s o) then (s, RErr) else set_key s o k
   | OptOut o => opt_out s o
   | Undelegate o r => undelegate s o r
   | SetUnb n => if 0 <? n then (with_unb s n, ROk) else (s, ROk)
   | BeginBlock tick => if tick then (epoch_end s, ROk) else (s, ROk)
   | EndBlock sel => end_block s sel
   | SetKeyK o k => set_key s o k
+  | Jail c => (set_jailed s c true, ROk)
+  | Unjail c => (set_jailed s c false, ROk)
+  | SlashBy _ => (s, ROk)
+  | SetClock c => if nothing_scheduled s then (with_cur s c, ROk) else (s, ROk)   (* repaired: identifier kept while anything is scheduled *)
   end.
 
 Definition run (s : st) (ops : list op) : st := fold_left (fun s a => fst (step s a)) ops s.
@@ -241,7 +275,11 @@ Record obs := mkObs {
   o_popt : list Z; o_pprune : list Z; o_pund : list Z;
   o_epend : bool; o_cur : Z; o_unb : Z;
   o_holds : list (Z * Z);
-  o_probe : list (Z * bool)
+  o_probe : list (Z * bool);
+  o_jailed : list Z;             (* operators whose OptedInfo.Jailed is set *)
+  o_info : list Z;               (* operators with an OptedInfo record *)
+  o_jprobe : list (Z * bool);    (* IsValidatorJailed per key *)
+  o_slashed : list Z             (* operators that received a slash record in this step *)
 }.
 
 Fixpoint assoc (l : list (Z * Z)) (k : Z) : option Z :=
@@ -258,7 +296,8 @@ Definition abs (b : obs) : st :=
        (flatten (o_qopt b)) (flatten (o_qprune b)) (flatten (o_qund b))
        (assoc (o_fin b)) (assoc (o_mat b)) (o_popt b) (o_pprune b) (o_pund b)
        (o_epend b) (o_cur b) (o_unb b)
-       (fun r => match assoc (o_holds b) r with Some n => n | None => 0 end).
+       (fun r => match assoc (o_holds b) r with Some n => n | None => 0 end)
+       (fun o => zmem o (o_jailed b)) (fun o => zmem o (o_info b)).
 
 (* finite universe of a case: operators, keys, records, epochs 0..maxep *)
 Record univ := mkU { u_ops : list Z; u_keys : list Z; u_recs : list Z; u_eps : list Z }.
@@ -272,7 +311,8 @@ Definition q_eq_on (U : univ) (q1 q2 : queue) : bool :=
 (* extensional equality of two states on the universe *)
 Definition st_eq_on (U : univ) (a b : st) : bool :=
   forallb (fun o => Bool.eqb (opted a o) (opted b o) && oz_eqb (k_op a o) (k_op b o) && oz_eqb (k_ch a o) (k_ch b o) &&
-                    oz_eqb (k_prev a o) (k_prev b o) && Bool.eqb (k_rm a o) (k_rm b o) && oz_eqb (fin a o) (fin b o)) (u_ops U) &&
+                    oz_eqb (k_prev a o) (k_prev b o) && Bool.eqb (k_rm a o) (k_rm b o) && oz_eqb (fin a o) (fin b o) &&
+                    Bool.eqb (jailed a o) (jailed b o) && Bool.eqb (info a o) (info b o)) (u_ops U) &&
   forallb (fun c => oz_eqb (k_rev a c) (k_rev b c) && Bool.eqb (vs a c) (vs b c)) (u_keys U) &&
   forallb (fun r => oz_eqb (mat a r) (mat b r) && (holds a r =? holds b r)) (u_recs U) &&
   q_eq_on U (q_opt a) (q_opt b) && q_eq_on U (q_prune a) (q_prune b) && q_eq_on U (q_und a) (q_und b) &&
@@ -288,10 +328,12 @@ Definition obs_in_univ (U : univ) (b : obs) : bool :=
   forallb (fun p => forallb ino (snd p)) (o_qopt b) && forallb (fun p => forallb ink (snd p)) (o_qprune b) &&
   forallb (fun p => forallb inr (snd p)) (o_qund b) && forallb (fun p => ino (fst p)) (o_fin b) &&
   forallb (fun p => inr (fst p)) (o_mat b) && forallb ino (o_popt b) && forallb ink (o_pprune b) &&
-  forallb inr (o_pund b) && forallb (fun p => inr (fst p)) (o_holds b).
+  forallb inr (o_pund b) && forallb (fun p => inr (fst p)) (o_holds b) &&
+  forallb ino (o_jailed b) && forallb ino (o_info b) && forallb ino (o_slashed b).
 
 Definition probe_ok (s : st) (b : obs) : bool :=
-  forallb (fun p => Bool.eqb (probe s (fst p)) (snd p)) (o_probe b).
+  forallb (fun p => Bool.eqb (probe s (fst p)) (snd p)) (o_probe b) &&
+  forallb (fun p => Bool.eqb (jail_probe s (fst p)) (snd p)) (o_jprobe b).
 
 Record stepobs := mkStep { so_op : op; so_res : res; so_obs : obs }.
 Record case := mkCase { c_univ : univ; c_init : obs; c_steps : list stepobs }.
@@ -302,7 +344,12 @@ Fixpoint check_steps (U : univ) (s : st) (l : list stepobs) (i : nat) : option n
   | [] => None
   | x :: r =>
       let '(s', rs) := step s (so_op x) in
-      if res_eqb rs (so_res x) && obs_in_univ U (so_obs x) && st_eq_on U s' (abs (so_obs x)) && probe_ok s' (so_obs x)
+      let slashed_ok :=
+        match so_op x with
+        | SlashBy c => lz_eqb (o_slashed (so_obs x)) (match slash_target s c with Some o => [o] | None => [] end)
+        | _ => match o_slashed (so_obs x) with [] => true | _ => false end
+        end in
+      if res_eqb rs (so_res x) && obs_in_univ U (so_obs x) && st_eq_on U s' (abs (so_obs x)) && probe_ok s' (so_obs x) && slashed_ok
       then check_steps U s' r (S i) else Some i
   end.
 
